@@ -149,6 +149,8 @@ func ZZ_C16_TimeRoundtrip() {
 	if err3 == nil {
 		zz.Assert(t3.MidnightOffset().InMinutes() == off, "time-other-notation-value")
 	}
+	// writing a value out in another notation does not change the value itself
+	zz.Assert(t.ToString() == s && zz.Iff(t.Format().Use24HourClock, is24), "writing-out-leaves-the-value-unchanged")
 }
 
 // ZZ_C16_TimePlus: Plus yields the time d minutes later iff that lies within
@@ -432,6 +434,8 @@ func ZZ_C16_DateRoundtrip() {
 	zz.Assert(zz.And(dt2.Year() == y, zz.And(dt2.Month() == m, dt2.Day() == d)), "date-roundtrip-value")
 	zz.Assert(zz.Iff(dt2.Format().UseDashes, dashes), "date-roundtrip-notation")
 	zz.Assert(dt2.IsEqualTo(dt), "date-roundtrip-equal")
+	// writing a value out in another notation does not change the value itself
+	zz.Assert(dt.Format().UseDashes, "writing-out-leaves-the-value-unchanged")
 }
 
 // ZZNewTime exposes newTime to harnesses in other packages.
